@@ -159,6 +159,12 @@ def run(prop, tier, extra=None):
             for e in tr:
                 e["tid"] += 2 * 10**6
         traces += extra_tr
+        # a merge of hundreds of operators (one operator per container), under the priority policy
+        wide = driver_sched.gen_traces(16 if tier == "quick" else 400, common.seed() + 811, policies=["priority"], flavours=(("wide", 1.0),))
+        for tr in wide:
+            for e in tr:
+                e["tid"] += 6 * 10**6
+        traces += wide
         # the starter scheduler the documented way, all through the command line: `eudoxia init -s NAME`, `eudoxia run -i NAME`
         traces += driver_sched.gen_special("cli", 6 if tier == "quick" else 60, common.seed() + 809, 4 * 10**6)
         # deterministic probes of the listed known finding D6 (priority-pool ignores single-operator mode)
